@@ -386,7 +386,10 @@ def skip_childless(ctx, rr):
         pruned = bool(skip) and (can is False)
         if skip and can is None:
             bad.append((r, None, 'the shortcut is taken without looking at the child-webentity mark'))
-        if ('child' in dirs) != (bool(hc) and not pruned):
+        if hc is None and not pruned:
+            bad.append((r, None, 'the walk leaves the node without looking at its child although the shortcut does not apply (shortcut=%s, may have child webentities=%s): '
+                           'everything below is cut off' % (skip, can)))
+        elif ('child' in dirs) != (bool(hc) and not pruned):
             bad.append((r, None, 'child is %s (has_child=%s, shortcut=%s, may have child webentities=%s)' % ('descended' if 'child' in dirs else 'not descended', hc, skip, can)))
     rr.ob(ctx.where(u, loops[0]), 'dfs_iter: the childless-path shortcut prunes the child only, siblings are always followed (%d rows)' % len(rows), ok=not bad, rows=len(rows))
     for r, e, msg in bad:
@@ -687,6 +690,13 @@ def filter_agree(ctx, rr):
                         if apps:
                             bad.append((r, apps[0], 'link is kept without comparing the target webentity with the queried one'))
                             continue
+                        if r.outcome in ('continue', 'fall', 'again'):
+                            # something was requested, yet the link is dropped before its webentity was compared with the queried one
+                            decided_by = [k for k in r.order if k.startswith(('isnone:', 'truthy:')) and OWE in (k + r.src.get(k, ''))]
+                            if decided_by:
+                                bad.append((r, None, 'a requested link is dropped because of `%s` before the target webentity is compared with the queried one (the paginated / '
+                                               'unpaginated twin keeps it)' % decided_by[0]))
+                                continue
                     else:
                         want = (bool(ob) and not same) or (bool(it) and same)
                 if bool(apps) != bool(want):
@@ -857,6 +867,7 @@ def filter_agree(ctx, rr):
             raise AnalysisError('R-FILTER-AGREE: page loop of %s not found' % qual)
         SRC = names_in_target(outer[0].target)[1]
         rows = tables(ctx, u, stmts=outer[0].body, iters=1, keep=lambda n, c: n in ('is_page', 'has_links', 'links', 'append', 'weighted_link_nodes_iter', 'is_crawled'))
+        has_tally = any(e.kind == 'store' and 'pages_' in (e.name or '') for r_ in rows for e in r_.events)
         bad = []
         for r in rows:
             isp = atom_val(r, '.is_page()')
@@ -867,6 +878,8 @@ def filter_agree(ctx, rr):
             if used and not (isp is True and sw is True):
                 bad.append((r, used[0], 'a node is counted / its links are used although it is not a page with a source webentity (is_page=%s, source webentity=%s)' % (isp, sw)))
             tallies = [e for e in r.events if e.kind == 'store' and 'pages_' in (e.name or '')]
+            if isp is True and sw is True and not tallies and r.outcome in ('continue', 'fall', 'again') and has_tally:
+                bad.append((r, None, 'a page that resolves to a webentity is not tallied (an extra condition skips it before the page counters)'))
             for tl in tallies:
                 cr = atom_val(r, '.is_crawled()')
                 if ("'uncrawled'" in tl.name or 'pages_uncrawled' in tl.name) == bool(cr) or cr is None:
@@ -944,6 +957,14 @@ def ladder_agree(ctx, rr):
                 rr.fail(ctx.finding('R-LADDER-AGREE', u, e.node if e is not None else lp, '%s: %s' % (qual, msg), detail={'row': r.show()[:400]}))
             if K is None:
                 raise AnalysisError('R-LADDER-AGREE: candidate variable of %s not found' % qual)
+        # every request goes through the ladder: no way out of __add_page before the rules met on the walk were consulted
+        if role == 'insert':
+            from .generic_rules import must_pass
+            okp = must_pass(ctx, u, lambda root: any(isinstance(c_, ast.Call) and any(t.name == 'rules_to_apply' for t in P.targets(c_)) for c_ in ast.walk(root)))
+            rr.ob(ctx.where(u), '%s consults the rules met on the walk on every path' % qual, ok=okp)
+            if not okp:
+                rr.fail(ctx.finding('R-LADDER-AGREE', u, u.node, '%s can return before consulting the creation rules and the default rule: a known page without webentity (its '
+                                    'webentity was deleted) never gets one, while get_potential_prefix still proposes it' % qual, stmt='%s: return before the ladder' % qual))
         # ---- the ladder after the loop
         body = u.node.body
         idx = body.index(lp)
